@@ -83,6 +83,15 @@ SCENARIOS = {
         ('provider-delete-vs-traits-set', [('rp_delete', 3), ('traits_set', 39, 3, G[3], [100002])]),
         ('provider-delete-vs-aggregates-set', [('rp_delete', 3), ('aggs_set', 39, 3, G[3], [1, 2])]),
         ('provider-delete-vs-reshape', [('rp_delete', 3), ('reshape', 39, [(3, G[3], [inv(0, 4)])], [])]),
+        # races found by the proof attempt of C08c_ri_all_schedules (Proofs/C08c.v) and repaired by 09e8fa2 / 42072ba / cd58161
+        ('aggregates-below-1.19-vs-provider-delete', [('aggs_set', 18, 3, 0, [1, 2]), ('rp_delete', 3)]),
+        ('trait-deleted-twice-and-recreated', [('trait_delete', 39, 100001), ('trait_delete', 39, 100001), ('trait_put', 39, 100001),
+                                               ('traits_set', 39, 3, G[3], [100001])], [[0, 1, 1, 2, 2, 3, 3, 3, 0]]),
+        ('class-rename-vs-delete', [('rc_rename', 6, 1000, 1002), ('rc_delete', 39, 1000)]),
+        # ... and the one that is recorded, not repaired (known_findings.json): the reshaper resolves a class name from the
+        # per-request cache filled by an earlier transaction of the same request
+        ('reshape-wiping-consumer-vs-class-delete', [('reshape', 39, [(3, G[3], [inv(1000, 4)])], [cons(2, 1, [])]), ('rc_delete', 39, 1000)],
+         [[0, 0, 0, 1, 1, 0], [0, 0, 1, 1, 0, 0], [0, 0, 0, 0, 1, 1, 0]]),
         ('provider-delete-vs-reshape-claim', [('rp_delete', 6), ('reshape', 39, [(6, G[6], [inv(0, 4), inv(1, 8)])],
                                                                    [cons(5, None, [(6, [(1, 2)])])])]),
     ],
@@ -187,6 +196,18 @@ def known(scn, obs):
     return checks_conc.known_pattern(scn, obs) or checks_conc.double_wipe(scn, obs)
 
 
+def cached_class_race(scn, obs, text):
+    """the recorded finding (known_findings.json, C08, pattern reshape-cached-class-vs-class-delete): an accepted POST /reshaper
+    that names a consumer with empty allocations (which fills the request's resource class cache) and adds inventory of a custom
+    class, together with an accepted DELETE of that class - the inventory then refers to a missing resource class"""
+    if 'refers to a missing resource class' not in text:
+        return False
+    wipes = any(op[0] == 'reshape' and o[0] < 300 and any(not k['allocs'] for k in op[3]) and
+                any(i['rc'] >= 1000 for (_u, _g, l) in op[2] for i in l) for op, o in zip(scn.requests, obs))
+    deletes = any(op[0] == 'rc_delete' and o[0] < 300 for op, o in zip(scn.requests, obs))
+    return wipes and deletes
+
+
 def run(pid, tier, seed):
     conc.init_engine()
     rng = random.Random(seed * 31 + int(pid[1:]))
@@ -194,7 +215,9 @@ def run(pid, tier, seed):
     stats = {'scenarios': 0, 'schedules': 0, 'outcomes': collections.Counter(), 'known_pattern_schedules': 0}
     viols = []
     tree_cases = []
-    for name, reqs in SCENARIOS[pid]:
+    for entry in SCENARIOS[pid]:
+        name, reqs = entry[0], entry[1]
+        explicit = entry[2] if len(entry) > 2 else []
         scn = conc.Scenario(name, TREE_SETUP if pid == 'C09' else SETUP, reqs, [])
         app = conc.start(scn)
         start_dump = ops.canon_dump(app.raw_dump())
@@ -203,6 +226,11 @@ def run(pid, tier, seed):
         stats['scenarios'] += 1
         seen = set()
         runs = []
+        for sch in explicit:
+            obs, dump, trace, used = conc.run_schedule(scn, sch)
+            if tuple(used) not in seen:
+                seen.add(tuple(used))
+                runs.append((used, obs, dump))
         for sch in conc.gap_schedules(scn, k_max=10):
             obs, dump, trace, used = conc.run_schedule(scn, sch)
             if tuple(used) not in seen:
@@ -225,6 +253,9 @@ def run(pid, tier, seed):
             for kind, text in judge(pid, scn, obs, dump, start_dump):
                 if kind == 'nonserializable' and known(scn, obs):
                     stats['known_pattern_schedules'] += 1
+                    continue
+                if kind == 'dangling' and cached_class_race(scn, obs, text):
+                    stats['known_cached_class_schedules'] = stats.get('known_cached_class_schedules', 0) + 1
                     continue
                 viols.append({'payload': {'kind': 'schedule-extra', 'scenario': scn.to_json(), 'schedule': list(used),
                                           'statuses': [o[0] for o in obs], 'check': kind}, 'text': text})
